@@ -80,6 +80,19 @@ class Module(object):
         with warnings.catch_warnings():
             warnings.simplefilter('ignore')
             self.tree = ast.parse(self.src, filename=path)
+        self.aliases = {}      # local alias -> package module name
+        for st in self.tree.body:
+            if isinstance(st, ast.ImportFrom):
+                if (st.level >= 1 and not st.module) or (st.level == 0 and st.module == PKG):
+                    for a in st.names:
+                        self.aliases[a.asname or a.name] = a.name
+        self.normalised = {}
+
+    def finish(self, ctx=None):
+        """Canonicalise the tree (ttsa.normalise) and index functions, classes, imports, constants."""
+        if ctx is not None and not os.environ.get('TTSA_NO_NORMALISE'):
+            from . import normalise
+            self.tree, self.normalised = normalise.normalise(self.tree, ctx, self.name, dict(self.aliases))
         self.funcs = {}        # qualname -> Func
         self.classes = {}      # name -> ast.ClassDef
         self.aliases = {}      # local alias -> package module name
@@ -130,6 +143,14 @@ class Program(object):
         self.modules['__main__'] = Module('__main__', script)
         h.update(self.modules['__main__'].src.encode('utf-8'))
         self.digest = h.hexdigest()[:16]
+        from . import normalise
+        ctx = normalise.package_context(dict((n, (m.tree, dict(m.aliases), set())) for n, m in self.modules.items()))
+        self.normalised = {}
+        self.ctx = ctx
+        for n, m in self.modules.items():
+            m.finish(ctx)
+            for k, v in m.normalised.items():
+                self.normalised[k] = self.normalised.get(k, 0) + v
 
     def func(self, module, qual, required=True):
         m = self.modules.get(module)
@@ -225,6 +246,64 @@ class Program(object):
                 q = f.id + '.__init__'
                 return (mod.name, q) if q in mod.funcs else None
         return None
+
+    def pure_call(self, call, func):
+        """The call is known to have no effect on program state: a pure builtin / method, or a package function
+        whose body (transitively) writes nothing but its own fresh locals."""
+        from . import normalise as N
+        fn = call.func
+        if isinstance(fn, ast.Name):
+            if fn.id in func.locals:
+                return False
+            if fn.id in N.PURE_BUILTINS or fn.id in N.EXTRA_PURE:
+                return True
+            return (func.module.name, fn.id) in self.ctx['pure']
+        if isinstance(fn, ast.Attribute):
+            c = self.callee(call, func)
+            if c is not None:
+                return c in self.ctx['pure']
+            if isinstance(fn.value, ast.Name) and fn.value.id in func.module.aliases and fn.value.id not in func.locals:
+                return False
+            return fn.attr in N.PURE_METHODS
+        return False
+
+    def _package_methods(self):
+        if not hasattr(self, '_pm'):
+            pm = set()
+            for m in self.modules.values():
+                for c in m.classes.values():
+                    for sub in c.body:
+                        if isinstance(sub, ast.FunctionDef):
+                            pm.add(sub.name)
+            self._pm = pm
+        return self._pm
+
+    def opaque_calls(self, func, names, before=None):
+        """Calls in `func` that hand one of the local `names` (or something reached through it) to code that is
+        not known to be pure - a helper that may do, elsewhere, what a rule looks for here.  `before`: only calls
+        from which cfg node `before` can be reached."""
+        out = []
+        cfg = func.cfg
+        names = set(names)
+        for n in cfg.eval_nodes():
+            if before is not None and n.id != before and not cfg.can_reach(n.id, before):
+                continue
+            for root in cfg.exprs(n.id):
+                for sub in ast.walk(root):
+                    if not isinstance(sub, ast.Call) or self.pure_call(sub, func):
+                        continue
+                    args = list(sub.args) + [k.value for k in sub.keywords]
+                    if isinstance(sub.func, ast.Attribute) and self.callee(sub, func) is None:
+                        # a method of a builtin container / stream cannot reach into the nodes it is handed; only
+                        # methods defined by classes of the package can
+                        if sub.func.attr not in self._package_methods():
+                            continue
+                        args.append(sub.func.value)
+                    for a in args:
+                        if root_name(a.value if isinstance(a, ast.Starred) else a) in names:
+                            out.append((n.id, sub))
+                            break
+        return out
 
     def is_call_to(self, node, func, module, name):
         return isinstance(node, ast.Call) and self.callee(node, func) == (module, name)
@@ -749,20 +828,93 @@ def _unique_assign(func, name):
     return None
 
 
+def _pure_value(v):
+    from . import normalise as N
+    return isinstance(v, ast.AST) and not isinstance(v, (ast.Constant, ast.Lambda)) and N._pure(v)
+
+
+def _expand_fact(func, fa, nid, out, at=None):
+    """Variants of a fact with a local that has a single, pure definition replaced by that definition
+    (`gaps = gap_degree(tree)` ... `if gaps > 0`), and a boolean flag replaced by the condition it names."""
+    if fa[0] == 'truthy' and fa[1].isidentifier():
+        v = _unique_assign(func, fa[1])
+        if isinstance(v, (ast.Compare, ast.BoolOp, ast.UnaryOp)):
+            for (e, p) in split_assumes(v, fa[2]):
+                out.append((norm_test(e, p), nid))
+        elif _pure_value(v) or (isinstance(v, ast.Call)):
+            out.append((norm_test(v, fa[2]), nid))
+    elif fa[0] == 'cmp':
+        for i in (1, 3):
+            if fa[i].isidentifier():
+                v = _unique_assign(func, fa[i])
+                if v is not None and (_pure_value(v) or isinstance(v, ast.Call)):
+                    l = list(fa)
+                    l[i] = unparse(v)
+                    out.append((tuple(l), nid))
+    elif fa[0] == 'none' and fa[1].isidentifier():
+        v = _unique_assign(func, fa[1])
+        if v is not None and path(v) is not None:
+            out.append((('none', unparse(v), fa[2]), nid))
+
+
 def facts_at(cfg, n):
     """Normal forms of the atomic conditions that hold on every path reaching node n.  A condition that
     merely tests a local flag (`if not discontinuous:`) is expanded through the flag's only definition
-    (`discontinuous = 0 < gap_degree(tree)`)."""
+    (`discontinuous = 0 < gap_degree(tree)`); a comparison of a local with a single definition is also given
+    with the definition substituted."""
     out = []
     for a in cfg.assumes_at(n):
         fa = norm_test(a.ast, a.pol)
         out.append((fa, a.id))
-        if fa[0] == 'truthy' and fa[1].isidentifier():
-            v = _unique_assign(cfg.func, fa[1])
-            if isinstance(v, (ast.Compare, ast.BoolOp, ast.UnaryOp)):
-                for (e, p) in split_assumes(v, fa[2]):
-                    out.append((norm_test(e, p), a.id))
+        _expand_fact(cfg.func, fa, a.id, out)
     return out
+
+
+def expr_guards(func, sub):
+    """Facts established *inside the same expression* before `sub` is evaluated: the earlier operands of an
+    enclosing `and` (true) / `or` (false), and the test of an enclosing conditional expression."""
+    parents = getattr(func, '_parents', None)
+    if parents is None:
+        parents = {}
+        for n in ast.walk(func.node):
+            for c in ast.iter_child_nodes(n):
+                parents[c] = n
+        func._parents = parents
+    out = []
+    q = sub
+    while q in parents:
+        pq = parents[q]
+        if isinstance(pq, ast.BoolOp):
+            pol = isinstance(pq.op, ast.And)
+            for v in pq.values:
+                if v is q:
+                    break
+                for (ce, p_) in split_assumes(v, pol):
+                    out.append(norm_test(ce, p_))
+        elif isinstance(pq, ast.IfExp):
+            if q is pq.body:
+                out.extend(norm_test(ce, p_) for (ce, p_) in split_assumes(pq.test, True))
+            elif q is pq.orelse:
+                out.extend(norm_test(ce, p_) for (ce, p_) in split_assumes(pq.test, False))
+        elif isinstance(pq, (ast.ListComp, ast.SetComp, ast.GeneratorExp, ast.DictComp)):
+            for g in pq.generators:
+                for cond in g.ifs:
+                    out.extend(norm_test(ce, p_) for (ce, p_) in split_assumes(cond, True))
+        if isinstance(pq, ast.stmt):
+            break
+        q = pq
+    return out
+
+
+def facts_for(func, sub):
+    """All facts known when expression node `sub` is evaluated: dominating branch conditions plus the guards
+    inside its own expression."""
+    cfg = func.cfg
+    try:
+        at = cfg.node_of(sub)
+    except AnalysisError:
+        return list(expr_guards(func, sub))
+    return [x[0] for x in facts_at(cfg, at)] + list(expr_guards(func, sub))
 
 
 MUTATORS = {'append', 'remove', 'pop', 'extend', 'insert', 'clear', 'sort', 'reverse', 'update',
